@@ -59,7 +59,45 @@ def make_run(nR, nZ, Rg, Zg):
     return run
 
 
+def run_mla(ctx):
+    """Each of the six DCT_2D methods on MultiLocationArray arguments: the result at location l is
+    that method evaluated on the R and Z of location l (real code, symbolic coefficients)."""
+    from hypnotoad.core.multilocationarray import MultiLocationArray
+    from hypnotoad.utils import dct_interpolation as M
+
+    nR, nZ = 2, 3
+
+    def dct_stub(x, axis=-1, **kw):
+        out = numpy.empty(x.shape, dtype=object)
+        for idx in numpy.ndindex(*x.shape):
+            out[idx] = ctx.real("c%d_%s" % (axis, "_".join(map(str, idx))))
+        return out
+
+    psi = numpy.empty((nR, nZ), dtype=object)
+    for idx in numpy.ndindex(nR, nZ):
+        psi[idx] = ctx.real("psi_%d_%d" % idx)
+    with patched((M, "dct", dct_stub)):
+        d = M.DCT_2D(numpy.array([1.0, 2.0]), numpy.array([-0.5, 0.0, 0.5]), psi)
+    locs = ("centre", "xlow", "ylow", "corners")
+    R, Z = MultiLocationArray(1, 1), MultiLocationArray(1, 1)
+    for l in locs:
+        getattr(R, l)[...] = ctx.real("R_" + l)
+        getattr(Z, l)[...] = ctx.real("Z_" + l)
+    u = lambda x: x.reshape(-1)[0] if isinstance(x, numpy.ndarray) else x
+    with spec_mode():
+        pass
+    for nm in ("__call__", "ddR", "ddZ", "d2dR2", "d2dZ2", "d2dRdZ"):
+        meth = getattr(d, nm)
+        res = meth(R, Z)
+        for l in locs:
+            want = u(meth(u(getattr(R, l)), u(getattr(Z, l))))
+            got = u(getattr(res, l))
+            with spec_mode():
+                ctx.oblige(got == want, "%s on MultiLocationArrays: %s = the method at (R.%s, Z.%s)" % (nm, l, l, l))
+
+
 def add(S):
+    S.contract("dct[MultiLocationArray dispatch]", FN, run_mla, expected_exceptions=(), shape="nR=2,nZ=3; one point per location")
     S.under_contract(FN, FN + ".__call__", FN + ".ddR", FN + ".ddZ", FN + ".d2dR2", FN + ".d2dZ2", FN + ".d2dRdZ")
     S.assume("A-SHAPE (DCT): derivative identities proved for all coefficient values and all evaluation points at node grids 3x2 and 2x4 with exactly representable uniform spacing; generalisation to any size rests on the per-mode structure of the sum (linear in the coefficients)")
     S.contract("dct[3x2]", FN, make_run(3, 2, numpy.array([1.0, 1.5, 2.0]), numpy.array([-0.25, 0.5])), expected_exceptions=(), shape="nR=3,nZ=2")
